@@ -9,6 +9,10 @@
             that received them in one Merge: per store, which silences match the label set, and Silencer.Mutes.
    CApi   : one API request (GET alerts / alert groups) with filter matchers over several alerts in a given order:
             per alert, whether the real handler's filter kept it.
+   CCfg   : a configuration text (YAML) with one inhibition rule and one child route whose matchers are written in
+            every accepted form (matchers lists and the deprecated match / match_re maps, mixed), loaded by
+            config.Load; observed: each side of the rule on the source alert and on the targets, Inhibitor.Mutes
+            of every target with the source alert firing (equal = []), and whether the child route matches.
    CPrint : a matcher list, with what Matcher.String printed for each and Matchers.String for the list.
    CParse : an input string, with what each parser entry point returned (key, result):
             c1/cN labels.ParseMatcher/ParseMatchers, u1/uN parse.Matcher/Matchers, kc*/ku*/kf* compat.Matcher/
@@ -29,6 +33,8 @@ Inductive case :=
 | CSilN (tbl : re_table) (sils : list (list (list matcher))) (ls : list (string * string))
         (obs_q : list (string * list bool)) (obs_m : list (string * bool))
 | CApi (tbl : re_table) (ms : list matcher) (lss : list (list (string * string))) (obs : list (string * list bool))
+| CCfg (tbl : re_table) (src tgt rt : list matcher) (sls : list (string * string))
+       (lss : list (list (string * string))) (obs : list (string * list bool))
 | CPrint (tb : tables) (ms : list matcher) (each : list string) (all : string)
 | CParse (tb : tables) (input : string) (obs : list (string * res (list matcher))).
 
@@ -73,6 +79,21 @@ Definition same_res (model : res (list bm)) (obs : res (list matcher)) : bool :=
   | _, _ => false
   end.
 
+(* what each observable of a configuration case must be, by key. With equal = [] a target is muted iff the target
+   side holds for it, the source side holds for the firing source alert, and not both (the source side holds for
+   the target and the target side for the source: two-sided matches do not inhibit each other). *)
+Definition cfg_expect (tbl : re_table) (src tgt rt : list matcher) (sls : list (string * string))
+           (lss : list (list (string * string))) (key : string) : list bool :=
+  let re := re_of_table tbl in
+  let S := ms_matches re src in let T := ms_matches re tgt in
+  if String.eqb key "S.src" then [S sls]
+  else if String.eqb key "T.src" then [T sls]
+  else if String.eqb key "S.tgt" then map S lss
+  else if String.eqb key "T.tgt" then map T lss
+  else if String.eqb key "mutes" then map (fun l => T l && S sls && negb (S l && T sls)) lss
+  else if String.eqb key "route" then map (ms_matches re rt) lss
+  else [].
+
 Definition show_case (c : case) : shown :=
   match c with
   | CMatch tbl mss ls _ _ _ => let '(a, b, s) := model_match tbl mss ls in SMatch a b s
@@ -80,6 +101,7 @@ Definition show_case (c : case) : shown :=
   | CSil tbl mss ls _ => SSite (mset_matches (re_of_table tbl) mss ls)
   | CSilN tbl sils ls _ _ => SMany (map (fun mss => mset_matches (re_of_table tbl) mss ls) sils)
   | CApi tbl ms lss _ => SMany (map (fun ls => ms_matches (re_of_table tbl) ms ls) lss)
+  | CCfg tbl src tgt rt sls lss obs => SMany (flat_map (fun kv => cfg_expect tbl src tgt rt sls lss (fst kv)) obs)
   | CPrint tb ms _ _ => SPrint (map (fun m => print_b (sp_of tb) (pr_of tb) (bm_of m)) ms)
                                (print_list_b (sp_of tb) (pr_of tb) (map bm_of ms))
   | CParse tb input obs => SParse (map (fun kv => (fst kv, model_parse tb (fst kv) (bytes_of_string input))) obs)
@@ -101,6 +123,8 @@ Definition check_case (c : case) : bool :=
   | CApi tbl ms lss obs =>
       let v := map (fun ls => ms_matches (re_of_table tbl) ms ls) lss in
       forallb (fun '(_, b) => beq b v) obs
+  | CCfg tbl src tgt rt sls lss obs =>
+      forallb (fun kv => beq (snd kv) (cfg_expect tbl src tgt rt sls lss (fst kv))) obs
   | CPrint tb ms each all =>
       beq (map (fun m => print_b (sp_of tb) (pr_of tb) (bm_of m)) ms) (map bytes_of_string each) &&
       beq (print_list_b (sp_of tb) (pr_of tb) (map bm_of ms)) (bytes_of_string all)
@@ -144,6 +168,11 @@ Definition prop_case (c : case) : bool :=
       let re := re_of_table tbl in
       beq (mset_matches re mss ls) (mset_matches re mss (filter (fun kv => negb (String.eqb (snd kv) "")) ls))
   | CSilN _ _ _ _ _ => true
+  | CCfg tbl src tgt rt sls lss _ =>
+      (* the order in which a side's matchers are written (and hence the form they are written in) is irrelevant *)
+      let re := re_of_table tbl in
+      forallb (fun l => beq (ms_matches re src l) (ms_matches re (rev src) l) &&
+                        beq (ms_matches re tgt l) (ms_matches re (rev tgt) l)) (sls :: lss)
   | CApi tbl ms lss _ =>
       (* an alert's verdict depends on its own labels only: evaluated alone it gets the same verdict *)
       forallb (fun ls => beq (ms_matches (re_of_table tbl) ms ls)
